@@ -455,12 +455,18 @@ func createTaskWithDir(dir string, opts GlobalOptions, lockPath, eventsPath, epi
 		}
 		events := []Event{event}
 		state := stateTodo
+		task := &Task{ID: id, UUID: uuid, EpicID: payload.EpicID, IsEpic: isEpic, State: stateTodo, Title: title, Body: body, CreatedAt: now, UpdatedAt: now}
+		graph.Tasks[id] = task
+		// A task created inside an epic is waited for by the children of every epic that depends on
+		// that epic, and itself waits for the children of the epics its epic depends on: it must not
+		// close a waits-for cycle.
+		if !isEpic && payload.EpicID != "" && hasEffectiveCycle(graph) {
+			return errors.New("task in this epic would create a dependency cycle")
+		}
 		for _, fu := range followUp {
 			if len(fu.updates) == 0 {
 				continue
 			}
-			task := &Task{ID: id, UUID: uuid, EpicID: payload.EpicID, IsEpic: isEpic, State: stateTodo, Title: title, Body: body, CreatedAt: now, UpdatedAt: now}
-			graph.Tasks[id] = task
 			more, err := buildUpdateEvents(dir, graph, id, task, fu.updates, fu.agentID, now)
 			if err != nil {
 				return err
